@@ -19,7 +19,11 @@ type MsgSpec struct {
 	Len       int    `json:"len"`
 	Seed      uint64 `json:"seed"`
 	Versioned bool   `json:"versioned,omitempty"`
-	VerHex    string `json:"ver_hex,omitempty"` // version bytes, hex (may contain NUL, 0x80, 0xff)
+	// Unknown: the (real protobuf) message also carries fields its type does
+	// not know — what a reader built from an older schema sees. They are part
+	// of the message: they must survive the round trip.
+	Unknown bool   `json:"unknown,omitempty"`
+	VerHex  string `json:"ver_hex,omitempty"` // version bytes, hex (may contain NUL, 0x80, 0xff)
 }
 
 func (m MsgSpec) Version() string {
@@ -63,6 +67,16 @@ type verLegacy struct {
 
 func (v *verLegacy) GetVersion() string { return v.ver }
 
+// unknownBytes is a valid encoding of two fields no wrapper type has: field 15
+// (varint) and field 16 (length-delimited).
+func (m MsgSpec) unknownBytes() []byte {
+	if !m.Unknown || m.Kind == "legacy" {
+		return nil
+	}
+	v := byte(engine.H(m.Seed, 41) % 100)
+	return []byte{0x78, v, 0x82, 0x01, 0x03, 'u', 'n', v}
+}
+
 func (m MsgSpec) payload() []byte {
 	p := make([]byte, m.Len)
 	engine.Fill(p, m.Seed, 0)
@@ -80,12 +94,18 @@ func (m MsgSpec) Build() proto.Message {
 	switch m.Kind {
 	case "bytes":
 		b := &wrapperspb.BytesValue{Value: p}
+		if u := m.unknownBytes(); u != nil {
+			b.ProtoReflect().SetUnknown(u)
+		}
 		if m.Versioned {
 			return &verBytes{b, m.Version()}
 		}
 		return b
 	case "string":
 		s := &wrapperspb.StringValue{Value: string(p)}
+		if u := m.unknownBytes(); u != nil {
+			s.ProtoReflect().SetUnknown(u)
+		}
 		if m.Versioned {
 			return &verString{s, m.Version()}
 		}
@@ -118,9 +138,9 @@ func (m MsgSpec) SameContent(got proto.Message) bool {
 	p := m.payload()
 	switch g := got.(type) {
 	case *wrapperspb.BytesValue:
-		return bytes.Equal(g.Value, p)
+		return bytes.Equal(g.Value, p) && bytes.Equal(g.ProtoReflect().GetUnknown(), m.unknownBytes())
 	case *wrapperspb.StringValue:
-		return g.Value == string(p)
+		return g.Value == string(p) && bytes.Equal(g.ProtoReflect().GetUnknown(), m.unknownBytes())
 	case *legacyMsg:
 		return bytes.Equal(g.Body, p)
 	}
@@ -182,6 +202,7 @@ func genMsg(r *engine.PRNG, maxLen int) MsgSpec {
 	if m.Len > maxLen {
 		m.Len = int(r.Range(0, int64(maxLen)))
 	}
+	m.Unknown = r.Chance(1, 6)
 	if r.Chance(1, 2) {
 		m.Versioned = true
 		n := r.PickInt(0, 1, 5, 5, 15, 16, 16, int(r.Range(0, 16)))
